@@ -228,9 +228,27 @@ static void sweep_item(uint64_t i, CaseInfo& ci) {
     REQUIRE(ok, "mpn_get_str(%s, %d): wrong digit values", show(V).c_str(), base);
     std::vector<unsigned char> dg(d.begin(), d.end()); std::vector<uint64_t> lim(V.m.size() + 2, 0x77); size_t rn = mpn_set_str(lim.data(), dg.data(), dg.size(), base); REQUIRE(rn == V.m.size() && Int::from_limbs(lim.data(), rn) == V, "mpn_set_str of the digits of %s in base %d: wrong value or limb count %zu", show(V).c_str(), base, rn); }
 }
+// deterministic cases: powers b^k whose bit count t makes t*log_b(2) an integer plus a fraction of less than 1e-8: the operands on which an estimate
+// floor(t*c)+1 with c a hair below log_b(2) is one too SMALL (b^k has exactly k+1 digits, b^k-1 exactly k).  The list comes from a search with a 128-bit
+// log_b(2) (first hits per base); no generated value lands on them.
+static void fixed_case(unsigned k, CaseInfo& ci) {
+  static const struct { int b; unsigned long k; bool str; } T[] = {{58, 3700209UL, true}, {58, 7400418UL, false}, {19, 22645744UL, false}, {60, 23682989UL, false}, {10, 59632978UL, false}};
+  if (k != 0) return;
+  ci.desc = "mpz_sizeinbase / mpz_get_str on 58^3700209, 58^7400418, 19^22645744, 60^23682989, 10^59632978 and each minus one (digit counts known by construction)";
+  for (auto& t : T) {
+    Z x; mpz_ui_pow_ui(x.z, (unsigned long)t.b, t.k); size_t s1 = mpz_sizeinbase(x.z, t.b);
+    REQUIRE(s1 == t.k + 1 || s1 == t.k + 2, "mpz_sizeinbase(%d^%lu, %d) = %zu, but the value is 1 followed by %lu zeros: %lu digits (the result must be exact or one too large)", t.b, t.k, t.b, s1, t.k, t.k + 1);
+    if (t.str) { Z y; mpz_neg(y.z, x.z); size_t room = mpz_sizeinbase(y.z, t.b) + 2; std::vector<char> buf(room + 8, 0x55); mpz_get_str(buf.data(), t.b, y.z); size_t len = strnlen(buf.data(), room + 8);
+      REQUIRE(len + 1 <= room, "mpz_get_str(-%d^%lu, base %d) wrote %zu bytes into the documented mpz_sizeinbase+2 = %zu bytes", t.b, t.k, t.b, len + 1, room);
+      bool ok = len == t.k + 2 && buf[0] == '-' && buf[1] == '1'; for (size_t i = 2; ok && i < len; i++) ok = buf[i] == '0'; REQUIRE(ok, "mpz_get_str(-%d^%lu): digits are not -1 followed by zeros", t.b, t.k);
+      char* r = mpz_get_str(nullptr, t.b, y.z); REQUIRE(r && strlen(r) == len, "mpz_get_str(NULL, ...): wrong length"); void (*fr)(void*, size_t); mp_get_memory_functions(nullptr, nullptr, &fr); fr(r, len + 1); }
+    mpz_sub_ui(x.z, x.z, 1); size_t s0 = mpz_sizeinbase(x.z, t.b);
+    REQUIRE(s0 == t.k || s0 == t.k + 1, "mpz_sizeinbase(%d^%lu - 1, %d) = %zu, the value has %lu digits", t.b, t.k, t.b, s0, t.k);
+  }
+}
 namespace eng {
 PropDef g_prop = {"C06",
   "Cases: mpz_get_str (exact sizeinbase+2 buffer or NULL), mpz_out_str via open_memstream, mpz_sizeinbase; mpn_get_str (bases 2..256, exact 'largest possible + 1' buffer); mpz_set_str / mpz_init_set_str on must-accept strings from a grammar (optional white space, sign, base-0 prefixes 0x 0X 0b 0B 0, mixed case for bases <= 36, maximal digits, leading zeros, embedded and trailing white space) and must-reject strings (an impossible character or a digit >= base inserted at any position, empty / blank / lone sign); mpz_inp_str via fmemopen with leading white space and a terminator; get_str -> set_str / inp_str round trip; mpn_set_str (raw digits, exact room when the top digit is non-zero); mpq_set_str / mpq_get_str. Bases 2..62, -2..-36, 0. Values by limb count around GET_STR thresholds, digit counts around SET_STR thresholds, base^k, base^k+-1, big_base^k+-1. Oracle: refint radix conversion; manual's alphabets and return codes; strings whose status the manual leaves open (white space after a sign, lone prefix, leading '+') are not generated. Non-trivial: >= 2 limbs or >= 20 characters. Distinct = hash of all decoded choices.",
-  check, nullptr, {"negative_base", "get_str:dc", "get_str:precompute", "set_str:dc", "set_str:precompute", "base0", "invalid_char", "invalid_char_at_end", "invalid_char_at_start", "invalid_char:high_bit_byte", "invalid_char_after_leading_zeros", "embedded_whitespace", "leading_zeros", "inp_str:no_digits", "sizeinbase_one_too_big"}, nullptr, sweep_count, sweep_item,
+  check, nullptr, {"negative_base", "get_str:dc", "get_str:precompute", "set_str:dc", "set_str:precompute", "base0", "invalid_char", "invalid_char_at_end", "invalid_char_at_start", "invalid_char:high_bit_byte", "invalid_char_after_leading_zeros", "embedded_whitespace", "leading_zeros", "inp_str:no_digits", "sizeinbase_one_too_big"}, fixed_case, sweep_count, sweep_item,
   "every signed value of up to three limbs with limbs from {0,1,2^63-1,2^63,2^64-2,2^64-1} in every base 2..62: mpz_sizeinbase, mpz_get_str (and upper case for bases <= 36), mpz_set_str of the digits, mpn_get_str and mpn_set_str on the magnitude"};
 }
